@@ -18,7 +18,7 @@ RULE = (
     "expansion. (iii-b) ENUMERATED segment construction: lines of up to 3 container segments (indent 0-3, marker in {>, -, 1., 12)}, "
     "1-4 blank columns) + tab-free leaf in {text, ATX, '- z', '> q', indented code, fence, definition, table row}, every blank run in "
     "every space/tab spelling that covers the same columns from the start of the physical line, optionally with a second (lazy / "
-    "continuation / indented) line. Tab twins are compared modulo exactly the statement's allowance: leading whitespace inside "
+    "continuation / indented) line, and continuation lines of nested quotes with their own prefix widths and spellings. Tab twins are compared modulo exactly the statement's allowance: leading whitespace inside "
     "verbatim block lines and after a line break inside inline content, and blank runs of code spans. Non-trivial = twin whose "
     "spellings differ and whose structure has >=1 container; distinct by the two spellings."
 )
